@@ -74,9 +74,12 @@ PROPS['C06'] = dict(
     engine='A', technique='symbolic-scalar execution of the real form templates + QF_NRA obligations against antiderivative-at-both-ends integrals, exact-rational replay',
     generated=[dict(mode='c06', ntu=14, template=dict(
         defs=dict(quick=['-DMAXN=4', '-DMAXO=3', '-DFO=1'], thorough=['-DMAXN=5', '-DMAXO=4', '-DFO=1', '-DALL_FACTOR_WINDOWS']),
-        functions=_FORM_FUNCS))],
-    bounds=dict(quick='14 operator pairs over {I, Dx<1>, Dx<2>, X<1>, X<2>, SplineOperator(v), X<2>Dx<1>+c X<1>-3, -Dx<2>/2, v*Dx<1>, c-X<1>} (position-dependent operators in both slots); order pairs {0..3}^2 (all four size parities of the kernel); every ordered window pair on grids of 2..4 symbolic points; factor windows {whole, empty, [0,2), [1,n)}',
-                thorough='68 operator pairs, order pairs {0..4}^2, grids of 2..5 points, every factor window'),
+        functions=_FORM_FUNCS)),
+               dict(mode='c06hi', ntu=4, template=dict(
+        defs=dict(quick=['-DFIXED_GRID', '-DMAXN=3', '-DFO=1'], thorough=['-DFIXED_GRID', '-DMAXN=4', '-DFO=1']),
+        functions=['BilinearForm::evaluateInterval for order pairs in {5,6,7,8,10}^2 (fixed rational grid)']))],
+    bounds=dict(quick='14 operator pairs over {I, Dx<1>, Dx<2>, X<1>, X<2>, SplineOperator(v), X<2>Dx<1>+c X<1>-3, -Dx<2>/2, v*Dx<1>, c-X<1>} (position-dependent operators in both slots); order pairs {0..3}^2 (all four size parities of the kernel); every ordered window pair on grids of 2..4 symbolic points; factor windows {whole, empty, [0,2), [1,n)}; plus order pairs {5,6,7,8,10}^2 for 4 operator pairs on FIXED irregular rational grids of 2..3 points (coefficients symbolic) - the kernel sizes the examples use',
+                thorough='68 operator pairs, order pairs {0..4}^2, grids of 2..5 points, every factor window; high-order part: 10 operator pairs, grids of 2..4 points'),
     outside='operator pairs and orders beyond the bound; floating-point rounding (C16)',
     assumptions=['grid points strictly increasing reals', 'T-typed divisor non-zero', 'exact real arithmetic (sym::Real), not IEEE'],
     trusted=A_TRUST + ['symt/gen/gen_exprs.py (reference interpreter)'],
@@ -86,8 +89,11 @@ PROPS['C07'] = dict(
     engine='A', technique='symbolic-scalar execution of the real form templates + QF_NRA obligations against antiderivative-at-both-ends integrals, exact-rational replay',
     generated=[dict(mode='c07', ntu=16, template=dict(
         defs=dict(quick=['-DMAXN=4', '-DMAXO=3', '-DFO=1'], thorough=['-DMAXN=5', '-DMAXO=4', '-DFO=1']),
-        functions=_FORM_FUNCS + ['Spline::operator*(Spline)', 'operator*(Operator,Spline)']))],
-    bounds=dict(quick='linear forms of 10 operators on splines of order 0..4 (both parities of the kernel), every window and every factor window on grids of 2..4 symbolic points; bilinear = LinearForm{}((O1 a)*(O2 b)) for 14 operator pairs, order pairs {0..3}^2, every ordered window pair',
+        functions=_FORM_FUNCS + ['Spline::operator*(Spline)', 'operator*(Operator,Spline)'])),
+               dict(mode='c07hi', ntu=4, template=dict(
+        defs=dict(quick=['-DFIXED_GRID', '-DMAXN=3', '-DFO=1'], thorough=['-DFIXED_GRID', '-DMAXN=3', '-DFO=1']),
+        functions=['LinearForm::evaluateInterval for orders 5..11 (fixed rational grid)']))],
+    bounds=dict(quick='linear forms of 10 operators on splines of order 0..4 (both parities of the kernel), every window and every factor window on grids of 2..4 symbolic points; bilinear = LinearForm{}((O1 a)*(O2 b)) for 14 operator pairs, order pairs {0..3}^2, every ordered window pair; plus orders 5..11 (linear forms) and order pairs (6,5), (7,8) (link) on a FIXED irregular rational 3-point grid with symbolic coefficients',
                 thorough='orders 0..5, 68 operator pairs, grids of 2..5 points'),
     outside='operators and orders beyond the bound; floating-point rounding (C16)',
     assumptions=['grid points strictly increasing reals', 'T-typed divisor non-zero', 'exact real arithmetic (sym::Real), not IEEE'],
@@ -97,14 +103,17 @@ PROPS['C07'] = dict(
 
 PROPS['C01'] = dict(
     engine='A', technique='symbolic-scalar execution of the real generator (T = z3 real terms, all knots symbolic) + QF_NRA obligations against the Cox-de Boor recursion at a symbolic x, exact-rational replay',
-    harnesses=[dict(name='C01_generator', src='C01_generator.cpp', chunk=1,
+    harnesses=[dict(name='C01_generator_fixed_knots', src='C01_generator.cpp',
+                    defs=dict(quick=['-DFIXED_KNOTS', '-DMINP=6', '-DMAXP=7', '-DEXTRA=2'], thorough=['-DFIXED_KNOTS', '-DMINP=6', '-DMAXP=10', '-DEXTRA=3']),
+                    functions=['generateBSplines<p> for p = 6..10 on fixed irregular rational knot values (every multiplicity pattern), x symbolic']),
+               dict(name='C01_generator', src='C01_generator.cpp', chunk=1,
                     defs=dict(quick=['-DMAXP=4', '-DEXTRA=4'], thorough=['-DMAXP=5', '-DEXTRA=4', '-DSMOOTHNESS']),
                     functions=['BSplineGenerator(knots)', 'BSplineGenerator(knots, grid)', 'BSplineGenerator::generateGrid', 'BSplineGenerator::generateBSplines<p>',
                                'BSplineGenerator::generateZerothOrderSplines', 'BSplineGenerator::applyRecursionRelation<k>', 'generateBSplines<p>(knots)', 'Grid::Grid', 'Grid::findElement',
                                'Position<1>::transform', 'ScalarMultiplication::transform', 'OperatorSum::transform', 'Spline::operator+=', 'Spline::operator=(lower order)', 'Spline::operator=='])],
-    bounds=dict(quick='orders p = 0..4; knot vectors of m = 2..p+4 knots; EVERY multiplicity pattern (all compositions of m with >= 2 parts: simple, interior and boundary repeats up to and beyond p+1); all knot values symbolic (any positive spacings, any offset); both construction routes and the free function; m < p+1 must throw, m = p+1 gives zero functions',
-                thorough='orders p = 0..5, m <= p+4 (up to 9 knots, 255 patterns), plus explicit C^{p-mu} derivative-continuity obligations at every interior knot'),
-    outside='p >= 6 (the examples use 10), knot vectors longer than p+4, floating-point rounding (C16)',
+    bounds=dict(quick='orders p = 0..4; knot vectors of m = 2..p+4 knots; EVERY multiplicity pattern (all compositions of m with >= 2 parts: simple, interior and boundary repeats up to and beyond p+1); all knot values symbolic (any positive spacings, any offset); both construction routes and the free function; m < p+1 must throw, m = p+1 gives zero functions; plus orders 6..7 with m = p..p+2 knots, every multiplicity pattern, distinct knot values FIXED irregular rationals (x symbolic) - symbolic knots at these orders are beyond nlsat',
+                thorough='orders p = 0..5, m <= p+4 (up to 9 knots, 255 patterns), plus explicit C^{p-mu} derivative-continuity obligations at every interior knot; fixed-knot part: orders 6..10 (the examples use 10), m = p..p+3, all 14860 patterns'),
+    outside='symbolic knot values for p >= 6; p > 10; knot vectors longer than p+4 (p+3 for p >= 6); floating-point rounding (C16)',
     assumptions=['knots non-decreasing with at least two distinct values (distinct values strictly increasing reals)', 'exact real arithmetic (sym::Real), not IEEE'],
     trusted=A_TRUST,
     level_text='Bounded symbolic model checking of the real generator: for each order and knot count inside the bound every multiplicity pattern is a case whose distinct knot values are free reals; each returned function is compared on every grid interval, at a symbolic x, with the Cox-de Boor recursion written directly over the knots; count, local support, partition of unity, both construction routes are separate obligations.',
